@@ -76,6 +76,87 @@ Theorem C08_maurer_simulator_verifies :
 Proof. exact maurer_simulator_verifies_b. Qed.
 Print Assumptions C08_maurer_simulator_verifies.
 
+(* Maurer's protocol meets the abstract notions the composition theorems are stated with *)
+Theorem C08_maurer_proto_complete_and_simulatable :
+  forall (W X : Type) (wadd : W -> W -> W) (wneg : W -> W) (wzero : W) (wsmul : Z -> W -> W)
+         (xadd : X -> X -> X) (xneg : X -> X) (xzero : X) (xsmul : Z -> X -> X)
+         (xeqb : X -> X -> bool) (phi : W -> X) (len : nat),
+  ab_action wadd wneg wzero wsmul -> ab_action xadd xneg xzero xsmul ->
+  is_hom wadd wsmul xadd xsmul phi -> decides_eq xeqb ->
+  sp_complete (maurer_proto W X wadd wsmul xadd xneg xsmul xeqb phi len) (fun x w => phi w = x) /\
+  sp_sim_ok (maurer_proto W X wadd wsmul xadd xneg xsmul xeqb phi len).
+Proof.
+  exact (fun W X wadd wneg wzero wsmul xadd xneg xzero xsmul xeqb phi len HW HX Hp He =>
+    conj (maurer_proto_complete W X wadd wneg wzero wsmul xadd xneg xzero xsmul xeqb phi len HW HX Hp He)
+         (maurer_proto_sim_ok W X wadd wneg wzero wsmul xadd xneg xzero xsmul xeqb phi len HW HX Hp He)).
+Qed.
+Print Assumptions C08_maurer_proto_complete_and_simulatable.
+
+(* ---------------- AND / OR composition ---------------- *)
+
+(* sigand (cartesian): complete when both branches are; accepts exactly when both branches
+   accept under their challenge prefixes; two accepting transcripts with the same first
+   message yield witnesses for both statements *)
+Theorem C08_and_complete : forall (P0 P1 : sproto) rel0 rel1,
+  sp_complete P0 rel0 -> sp_complete P1 rel1 -> sp_complete (and2 P0 P1) (and_rel P0 P1 rel0 rel1).
+Proof. exact and_complete. Qed.
+Print Assumptions C08_and_complete.
+
+Theorem C08_and_verify_iff : forall (P0 P1 : sproto) (x : sp_X (and2 P0 P1)) (a : sp_A (and2 P0 P1)) e (z : sp_Z (and2 P0 P1)),
+  sp_verify (and2 P0 P1) x a e z = true <->
+  sp_verify P0 (fst x) (fst a) (firstn (sp_len P0) e) (fst z) = true /\
+  sp_verify P1 (snd x) (snd a) (firstn (sp_len P1) e) (snd z) = true.
+Proof. exact and_verify_iff. Qed.
+Print Assumptions C08_and_verify_iff.
+
+Theorem C08_and_sound : forall (P0 P1 : sproto) rel0 rel1 good0 good1 ext0 ext1,
+  sp_special_sound P0 rel0 good0 ext0 -> sp_special_sound P1 rel1 good1 ext1 ->
+  sp_special_sound (and2 P0 P1) (and_rel P0 P1 rel0 rel1)
+    (fun e1 e2 => good0 (firstn (sp_len P0) e1) (firstn (sp_len P0) e2) /\
+                  good1 (firstn (sp_len P1) e1) (firstn (sp_len P1) e2))
+    (fun x a e1 z1 e2 z2 =>
+       (ext0 (fst x) (fst a) (firstn (sp_len P0) e1) (fst z1) (firstn (sp_len P0) e2) (fst z2),
+        ext1 (snd x) (snd a) (firstn (sp_len P1) e1) (snd z1) (firstn (sp_len P1) e2) (snd z2))).
+Proof. exact and_sound. Qed.
+Print Assumptions C08_and_sound.
+
+(* sigand (n copies, shared challenge): accepts exactly when all lengths are the count and
+   every branch accepts *)
+Theorem C08_andn_verify_iff : forall (P : sproto) (count : nat) xs az e zs,
+  andn_verify P count xs az e zs = true <->
+  length xs = count /\ length az = count /\ length zs = count /\
+  forall i x a z, nth_error xs i = Some x -> nth_error az i = Some a -> nth_error zs i = Some z ->
+                  sp_verify P x a e z = true.
+Proof. exact andn_verify_iff. Qed.
+Print Assumptions C08_andn_verify_iff.
+
+(* sigor: a proof built with exactly one real witness (branch b) and every other branch
+   simulated verifies *)
+Theorem C08_or_complete_one_witness : forall (P : sproto) rel (count b : nat) xs w r sims e xb,
+  sp_complete P rel -> sp_sim_ok P ->
+  length xs = count -> length sims = count -> (b < count)%nat ->
+  nth_error xs b = Some xb -> rel xb w ->
+  length e = sp_len P ->
+  Forall (fun s => length (fst s) = sp_len P) sims ->
+  or_verify_branches P count xs e (or_prove P b xs w r sims e) = true.
+Proof. exact or_complete_one_witness. Qed.
+Print Assumptions C08_or_complete_one_witness.
+
+(* sigor: the verifier checks that the shares combine to the challenge, hence two accepting
+   transcripts with the same first message and different challenges contain a branch with
+   two accepting transcripts under different shares (input of that branch's extractor) *)
+Theorem C08_or_sound_split : forall (P : sproto) (count : nat) xs az e es zs e' es' zs',
+  or_verify P count xs az e es zs = true ->
+  or_verify P count xs az e' es' zs' = true ->
+  e <> e' ->
+  exists i x a ei zi ei' zi',
+    nth_error xs i = Some x /\ nth_error az i = Some a /\
+    nth_error es i = Some ei /\ nth_error zs i = Some zi /\
+    nth_error es' i = Some ei' /\ nth_error zs' i = Some zi' /\
+    ei <> ei' /\ sp_verify P x a ei zi = true /\ sp_verify P x a ei' zi' = true.
+Proof. exact or_sound_split. Qed.
+Print Assumptions C08_or_sound_split.
+
 (* ---------------- Fiat–Shamir ---------------- *)
 
 (* the compiled verifier accepts (a,e,z) in context c iff e is the challenge derived from
